@@ -1259,6 +1259,7 @@ def run(ctx: Any, prog: Program) -> None:
 
 
 MUTANTS = [
+    {'id': 'vitamin_leaf_area_slot_takes_flags', 'file': 'bsp.py', 'find': "                    leaf.contents.value, leaf.cluster_id, leaf.area,\n", 'replace': "                    leaf.contents.value, leaf.cluster_id, leaf.flags.value,\n", 'expect': 'C11.L3', 'note': 'round 12 follow-up: the leaf records are linked now (zip binding + late destructuring)'},
     {'id': 'vitamin_leaf_area_packed_merged', 'file': 'bsp.py', 'find': "                    leaf.contents.value, leaf.cluster_id, leaf.area,\n", 'replace': "                    leaf.contents.value, leaf.cluster_id, (leaf.area << self.lump_layout['LEAF_AREA_OFFSET'] | leaf.flags.value),\n", 'expect': 'C11.L30', 'refuse_ok': True, 'note': 'round 12: a second merge - L30 declines (the seed C10-X is the detected form)'},
     {'id': 'static_prop_scaling_hoisted', 'file': 'bsp.py', 'find': "        for i in range(prop_count):\n            start = static_lump.tell()", 'replace': "        no_scaling = Vec(1.0, 1.0, 1.0)\n        for i in range(prop_count):\n            start = static_lump.tell()", 'extra': [{'file': 'bsp.py', 'find': "            scaling = Vec(1.0, 1.0, 1.0)\n", 'replace': "            scaling = no_scaling\n"}], 'expect': 'C11.L29', 'note': 'round 11: hoisted per-record Vec'},
     {'id': 'bmodel_phys_index_by_rank', 'file': 'bsp.py', 'find': "        for i, model in enumerate(model_list):\n            yield struct.pack(\n                '<9fiii',", 'replace': "        for i, model in enumerate(model_list, 1):\n            yield struct.pack(\n                '<9fiii',", 'expect': 'C11.L28', 'note': 'round 11: owner index of the physics block'},
